@@ -488,13 +488,16 @@ func (r *R) AnyItem(fam Fam, maxAtoms, depth int) ItemSpec {
 		runes := []int64{0, 'a', 'Z', ' ', '\n', 0x4e16, 0x301, 0x200b, 0x1F600, 0xD800, 0xDFFF, 0x10FFFF, 0x110000, -1, -65, 0x7fffffff, -0x80000000, 0xFFFD, '"', '<', '|'}
 		return ItemSpec{K: "rune", Num: Pick(r, runes)}
 	case 2:
-		return ItemSpec{K: Pick(r, []string{"int", "int64", "uint8", "uint", "myint", "myrune", "int8", "int16", "uint16", "uint32", "uint64", "uintptr", "fmtuint", "fmtint16", "fmtbool", "fmtstruct", "array"}), Num: int64(r.Range(-3, 120))}
+		return ItemSpec{K: Pick(r, []string{"int", "int64", "uint8", "uint", "myint", "myrune", "int8", "int16", "uint16", "uint32", "uint64", "uintptr", "fmtuint", "fmtint16", "fmtbool", "fmtstruct", "array"}), Num: r.edgeOrSmall()}
 	case 3:
 		if r.Chance(1, 4) {
 			return ItemSpec{K: Pick(r, []string{"nan", "inf"})} // formattable, but encoding/json refuses them
 		}
 		if r.Chance(1, 3) {
 			return ItemSpec{K: Pick(r, []string{"negzero", "negzero32", "float32"}), Flt: Pick(r, []float64{0, 1.5, -2.25})}
+		}
+		if r.Bool() {
+			return ItemSpec{K: Pick(r, []string{"float", "float", "float32"}), Flt: r.EdgeFloat()}
 		}
 		return ItemSpec{K: "float", Flt: Pick(r, []float64{0, 1.5, -2.25, 1e21, 1e-7, 3})}
 	case 4:
@@ -543,4 +546,67 @@ func (r *R) DeclSize() int {
 	default:
 		return r.Range(0, 6)
 	}
+}
+
+// EdgeInt draws an integer: small ones most of the time, else one at or next to the end of some integer width.
+func (r *R) EdgeInt() int64 {
+	switch r.Intn(4) {
+	case 0:
+		k := uint(Pick(r, []int{7, 8, 15, 16, 24, 31, 32, 53, 62, 63}))
+		v := int64(1)<<k + int64(r.Range(-2, 2))
+		if k == 63 {
+			v = math.MinInt64 + int64(r.Range(0, 2))
+		}
+		if r.Bool() && v != math.MinInt64 {
+			v = -v
+		}
+		return v
+	case 1:
+		return Pick(r, []int64{math.MaxInt64, math.MinInt64, math.MaxInt64 - 1, math.MaxInt32, math.MinInt32, 1e15, 1e18, -1e18, 999999999999999999, int64(r.Intn(1<<30)) << uint(r.Intn(33))})
+	}
+	return int64(r.Range(-5, 1000))
+}
+
+// EdgeFloat draws a finite float64: whole and fractional numbers of every magnitude, in particular on both sides
+// of where formats change (1e-6, 1e21), where integers stop being exact (2^53) and where integer types end (2^31, 2^63, 2^64).
+func (r *R) EdgeFloat() float64 {
+	var f float64
+	switch r.Intn(6) {
+	case 0:
+		f = Pick(r, []float64{0, 1.5, -2.25, 1e21, 1e-7, 3, 1e20, 1e-6, 123456789, 0.1, 100, 1e15, 1e16, 1e17, 1e19, 9.999999999999999e20, 5e-324, math.MaxFloat64, math.MaxFloat32, math.SmallestNonzeroFloat32})
+	case 1:
+		k := Pick(r, []int{23, 24, 31, 32, 52, 53, 54, 62, 63, 64, 65, 69, 70, 100, 127, 128, 1023})
+		f = math.Ldexp(1, k)
+		switch r.Intn(3) {
+		case 0:
+			f = math.Nextafter(f, 0)
+		case 1:
+			f = math.Nextafter(f, math.Inf(1))
+		}
+	case 2:
+		f = math.Pow(10, float64(r.Range(-12, 25)))
+		if r.Bool() {
+			f *= float64(r.Range(1, 999))
+		}
+	case 3:
+		f = float64(r.EdgeInt())
+	case 4:
+		f = math.Float64frombits(uint64(r.Intn(1<<31))<<32 | uint64(r.Intn(1<<31))<<1 | uint64(r.Intn(2)))
+		if math.IsNaN(f) || math.IsInf(f, 0) {
+			f = 0.5
+		}
+	default:
+		f = float64(r.Range(-1000, 1000)) / float64(Pick(r, []int{1, 2, 3, 7, 10, 1000}))
+	}
+	if r.Chance(1, 3) {
+		f = -f
+	}
+	return f
+}
+
+func (r *R) edgeOrSmall() int64 {
+	if r.Chance(1, 3) {
+		return r.EdgeInt()
+	}
+	return int64(r.Range(-3, 120))
 }
